@@ -9,6 +9,7 @@ import engine_corr as E
 import framework as FW
 import gen_engine as G
 import nomix_corr as NM
+import fullmoves as FM
 import oracles as O
 
 PID = "C09"
@@ -86,6 +87,8 @@ def run(tier, seed, replay=None):
         "traces_validated_against_impl": n, "samples": [cases[0]["ops"][:4]],
         "search_description": "IsExecutable => Execute succeeds => ok_C01 and ok_C02 on the implementation's snapshots",
     })
+    # full-feature models (no model to compare with): best moves and explicit moves reported executable must execute
+    FM.stage(chk, seed * 1009 + 99, 250 if tier == "quick" else 8000)
     # the no-mix constraint: its own model (Model/NoMix.v), its own scripted histories
     NM.stage(chk, seed * 1009 + 97, 500 if tier == "quick" else 12000, size="small" if tier == "quick" else "medium")
     chk.ev.assume("constraints of the modelled core: capacity (all estimate branches), distance limit, latest start/end, max wait stop/vehicle, max stops, attributes; no-mix (own model Model/NoMix.v on one-vehicle models that carry only that constraint); duration groups, alternates pending")
